@@ -85,11 +85,12 @@ def guard_of(s):
 
 
 class Frame:
-    def __init__(self, func, ctx, depth):
+    def __init__(self, func, ctx, depth, callpath=()):
         self.func = func
         self.ctx = ctx
         self.depth = depth
         self.modified = set()
+        self.callpath = tuple(callpath)
 
 
 class Builder:
@@ -123,7 +124,7 @@ class Builder:
 
     def info(self, fr, node, **kw):
         d = {"file": "include/etl/" + fr.func["file"], "line": (node or {}).get("line") or fr.func["line"],
-             "func": fr.func["q"], "depth": fr.depth}
+             "func": fr.func["q"], "depth": fr.depth, "callpath": list(fr.callpath)}
         if node is not None and node.get("src"):
             d["src"] = node["src"]
         d.update(kw)
@@ -156,6 +157,9 @@ class Builder:
                 if "other" in v:
                     continue
                 init = v.get("init")
+                if init is not None and init.get("k") == "lambda":
+                    fr.ctx.__dict__.setdefault("lambdas", {})[v["n"]] = init
+                    continue
                 if init is not None:
                     self.expr(init, fr, out, stmt=s)
                     fr.ctx.locals[v["n"]] = simplify(self.term(init, fr))
@@ -307,7 +311,8 @@ class Builder:
             so = fr.ctx.sorts.get(n) or "?"
             fresh[an] = so
             fr.ctx.locals[n] = T.var(an, so)
-        has_effects = any(nd[0] == "effect" for nd in flatten(b1))
+        has_effects = any(nd[0] == "effect" and (nd[1] == "maybe" or nd[2].get("token") == "state" or nd[2].get("opaque"))
+                          for nd in flatten(b1))
         if has_effects:
             self.bump_all(fr)
         cg = T.c(1)
@@ -318,12 +323,87 @@ class Builder:
             fr.ctx.locals[s["var"]["n"]] = ("unk", "range element")
         bg = []
         self.stmt(body, fr, bg)
-        # --- after the loop: modified variables unknown
+        # --- after the loop: modified variables unknown (refined below through exit atoms)
         for n in modified:
             fr.ctx.locals[n] = ("unk", "after loop: " + n)
         if has_effects:
             self.bump_all(fr)
-        out.append(("loop", c1, b1, cg, bg, fresh, self.info(fr, s)))
+        # facts at the back edge, expressed over the loop-head state (fresh atoms)
+        saved_after = dict(fr.ctx.locals)
+        for an, so in fresh.items():
+            fr.ctx.locals[an.split("@")[0]] = T.var(an, so)
+        inv = []
+        stmts = body["s"] if body and body.get("k") == "seq" else ([body] if body else [])
+        for i, st in enumerate(stmts):
+            if st.get("k") != "if" or st.get("else") or st.get("constexpr") or st.get("c") is None:
+                continue
+            if not always_exits(st.get("then")):
+                continue
+            later = set()
+            for st2 in stmts[i + 1:]:
+                collect_modified(st2, later)
+            if k == "for" and s.get("inc") is not None:
+                collect_modified_expr(s["inc"], later)
+            mentioned = set(x["n"] for x in astx.walk_expr(st["c"]) if x.get("k") == "ref")
+            if mentioned & later:
+                continue
+            t = simplify(self.term(st["c"], fr))
+            if not T.has_unknown(t):
+                inv.append(("not", t))
+        fr.ctx.locals = saved_after
+        out.append(("loop", c1, b1, cg, bg, fresh, self.info(fr, s, back_edge_facts=inv)))
+        # state after the loop: exit atoms constrained by (back-edge facts and not cond) or (zero iterations: entry state)
+        exit_atoms = {}
+        entry_terms = {}
+        pnames = set(pp["n"] for pp in fr.func.get("params", []))
+        for n in sorted(modified):
+            if n not in saved_l and n not in pnames:
+                continue
+            if n not in saved_l:
+                saved_l[n] = T.var(n, fr.ctx.sorts.get(n) or "?")
+            self.fresh_counter += 1
+            an = "%s@X%s.%d" % (n, s.get("line"), self.fresh_counter)
+            so = fr.ctx.sorts.get(n) or "?"
+            exit_atoms[an] = so
+            entry_terms[n] = saved_l[n]
+            fr.ctx.locals[n] = T.var(an, so)
+        if exit_atoms and not has_effects:
+            ran = None
+            if k in ("for", "while") and s.get("c") is not None:
+                ce = simplify(self.term(s["c"], fr))
+                parts = [("not", ce)] if not T.has_unknown(ce) else []
+                for st in stmts:
+                    pass
+                # back-edge facts over the exit atoms
+                for i, st in enumerate(stmts):
+                    if st.get("k") != "if" or st.get("else") or st.get("constexpr") or st.get("c") is None or not always_exits(st.get("then")):
+                        continue
+                    later = set()
+                    for st2 in stmts[i + 1:]:
+                        collect_modified(st2, later)
+                    if k == "for" and s.get("inc") is not None:
+                        collect_modified_expr(s["inc"], later)
+                    if set(x["n"] for x in astx.walk_expr(st["c"]) if x.get("k") == "ref") & later:
+                        continue
+                    t = simplify(self.term(st["c"], fr))
+                    if not T.has_unknown(t):
+                        parts.append(("not", t))
+                for prt in parts:
+                    ran = prt if ran is None else ("and", ran, prt)
+            zero = None
+            for n, et in entry_terms.items():
+                eq = ("cmp", "==", fr.ctx.locals[n], et)
+                zero = eq if zero is None else ("and", zero, eq)
+            if zero is not None and not T.has_unknown(c1) and c1 != T.c(1):
+                zero = ("and", zero, ("not", c1))
+            if ran is not None and zero is not None and not T.has_unknown(zero):
+                out.append(("assume", ("or", ran, zero), self.info(fr, s)))
+            elif ran is not None:
+                out.append(("assume", ran, self.info(fr, s)))
+            self.fresh_atoms.update(exit_atoms)
+        else:
+            for n in modified:
+                fr.ctx.locals[n] = ("unk", "after loop: " + n)
         self.fresh_atoms.update(fresh)
         return False
 
@@ -358,10 +438,10 @@ class Builder:
             return
         if k == "bin" and e["op"] in ("&&", "||") and has_calls(e["r"]):
             self.expr(e["l"], fr, out)
+            c = simplify(self.term(e["l"], fr))
             sub = []
             self.expr(e["r"], fr, sub)
             if sub:
-                c = simplify(self.term(e["l"], fr))
                 if e["op"] == "&&":
                     out.append(("branch", c, sub, [], self.info(fr, stmt or e)))
                 else:
@@ -369,21 +449,37 @@ class Builder:
             return
         if k == "cond" and (has_calls(e["t"]) or has_calls(e["f"])):
             self.expr(e["c"], fr, out)
+            cterm = simplify(self.term(e["c"], fr))
             tp, ep = [], []
             self.expr(e["t"], fr, tp)
             self.expr(e["f"], fr, ep)
             if tp or ep:
-                out.append(("branch", simplify(self.term(e["c"], fr)), tp, ep, self.info(fr, stmt or e)))
+                out.append(("branch", cterm, tp, ep, self.info(fr, stmt or e)))
             return
         if k == "bin" and e["op"] in ASSIGN_OPS:
             self.expr(e["r"], fr, out)
-            self.lvalue_subexprs(e["l"], fr, out)
+            if self.oblige_hook:
+                l0 = astx.strip_casts(e["l"])
+                if l0 is not None and (l0.get("k") == "idx" or (l0.get("k") == "un" and l0["op"] == "*")):
+                    self.oblige_hook(self, fr, out, l0, "write", stmt or e)
+            self.lvalue_subexprs(e["l"], fr, out, skip_hook=True)
             self.assign(e["l"], e["op"], e["r"], fr, out, stmt or e)
             return
+        if self.oblige_hook and (k == "idx" or (k == "un" and e["op"] == "*")):
+            self.oblige_hook(self, fr, out, e, "read", stmt or e)
         if k == "un" and e["op"] in ("++", "--"):
             self.lvalue_subexprs(e["e"], fr, out)
             one = {"k": "int", "v": "1", "ty": "int"}
             self.assign(e["e"], "+=" if e["op"] == "++" else "-=", one, fr, out, stmt or e)
+            return
+        if k == "call" and e["f"].get("k") == "lambda" and not e["a"]:
+            body = []
+            saved = dict(fr.ctx.locals)
+            self.stmt(e["f"].get("body"), fr, body)
+            for kk in list(fr.ctx.locals):
+                if kk not in saved:
+                    del fr.ctx.locals[kk]
+            out.append(("inline", "immediately invoked lambda", body, self.info(fr, stmt or e, callee="lambda")))
             return
         if k == "call":
             for a in e["a"]:
@@ -422,13 +518,19 @@ class Builder:
         for c in astx.children(e):
             self.expr(c, fr, out, stmt)
 
-    def lvalue_subexprs(self, e, fr, out):
+    def lvalue_subexprs(self, e, fr, out, skip_hook=False):
         if e is None:
             return
         k = e.get("k")
         if k == "idx":
             self.expr(e["b"], fr, out)
             self.expr(e["i"], fr, out)
+        elif k == "un" and e["op"] == "*" and skip_hook:
+            inner = e["e"]
+            if inner is not None and inner.get("k") == "un" and inner["op"] in ("++", "--"):
+                self.expr(inner, fr, out)
+            else:
+                self.lvalue_subexprs(inner, fr, out)
         elif k == "un":
             self.expr(e["e"], fr, out)
         elif k == "mem":
@@ -581,8 +683,6 @@ class Builder:
             if where == "local":
                 return
             info = self.info(fr, node, what="store through pointer", target=astx.show(lhs), lhs=lhs, rhs=rhs, op=op)
-            if self.oblige_hook:
-                self.oblige_hook(self, fr, out, lhs, info)
             out.append(("effect", where, info))
             return
         out.append(("effect", "maybe", self.info(fr, node, what="write to unclassified target", target=astx.show(lhs))))
@@ -606,8 +706,6 @@ class Builder:
             info["init_args"] = len(rhs.get("a", [])) if isinstance(rhs, dict) and "a" in rhs else 1
         if fieldname in fr.ctx.size_fields and rhs is not None and op == "=":
             info["size_update"] = simplify(self.term(rhs, fr))
-        if self.oblige_hook and lhs is not None:
-            self.oblige_hook(self, fr, out, lhs, info)
         out.append(("effect", "own", info))
         if fieldname is None or fieldname in fr.ctx.size_fields or not fr.ctx.size_fields:
             self.bump(fr.ctx.this_name)
@@ -684,6 +782,21 @@ class Builder:
         if is_handler_call(e):
             out.append(("guard", T.c(0), self.info(fr, node, src="unconditional handler call", handler=e, macros=[])))
             return
+        if kind == "member" and astx.is_this(recv) and e["f"].get("qual") and fr.func.get("record"):
+            qn = e["f"]["qual"].rstrip(":").split("<")[0].split("::")[-1]
+            bases = [q.split("<")[0].split("::")[-1] for q in self.db.lineage(fr.func["record"])]
+            rec = self.db.record(fr.func["record"])
+            alias_is_base = False
+            if rec:
+                for al in rec.get("aliases", []):
+                    if al["n"] == qn and any(b in al["ty"] for b in bases[1:]):
+                        alias_is_base = True
+            if qn not in bases and not alias_is_base:
+                # static member of another class (traits_type::eq, numeric_limits<T>::max, ...)
+                if n in PURE_FREE or n in PURE_MEMBER:
+                    return
+                out.append(("effect", "maybe", self.info(fr, node, opaque=True, what="static call", target=astx.show(e["f"]))))
+                return
         if n.startswith("~") or e["f"].get("pseudo"):
             where = self.classify_target(recv, fr)
             out.append(("effect", where if where != "local" else "maybe",
@@ -709,8 +822,12 @@ class Builder:
                                                      slot_holder=self.root(recv, fr), slot_record=srec)))
             return
         lam = [a for a in e["a"] if a is not None and a.get("k") == "lambda"]
+        named = [a for a in e["a"] if a is not None and a.get("k") == "ref" and a["n"] in getattr(fr.ctx, "lambdas", {})]
         if lam and kind == "free":
             self._apply_lambda(lam[0], [a for a in e["a"] if a is not lam[0]], fr, out, node, n)
+            return
+        if named and kind == "free":
+            self._apply_lambda(fr.ctx.lambdas[named[0]["n"]], [a for a in e["a"] if a is not named[0]], fr, out, node, n)
             return
         cands = self.resolve(e, fr)
         # algorithms that write through an argument: classify by destination
@@ -726,7 +843,7 @@ class Builder:
             where = "outside" if "outside" in wheres else ("own" if all(w == "own" for w in wheres) else "maybe")
             info = self.info(fr, node, what="range write by " + n, call=e, algorithm=n)
             if self.oblige_hook:
-                self.oblige_hook(self, fr, out, e, info)
+                self.oblige_hook(self, fr, out, e, "range-write", node)
             out.append(("effect", where, info))
             return
         if kind == "free" and n in PURE_FREE and not self._has_guards(cands):
@@ -1003,7 +1120,7 @@ class Builder:
                     ctx.locals[p["n"]] = t
             elif "def" in p:
                 ctx.locals[p["n"]] = simplify(versioned(T.to_term(p["def"], ctx), self.versions))
-        sub = Frame(cal, ctx, fr.depth + 1)
+        sub = Frame(cal, ctx, fr.depth + 1, fr.callpath + (astx.show(call, 60),))
         self.stack.append(id(cal))
         body = []
         for i in cal.get("inits", []) or []:
@@ -1144,6 +1261,29 @@ def collect_modified(s, acc):
             pass
 
 
+def always_exits(s):
+    if s is None:
+        return False
+    k = s.get("k")
+    if k in ("return", "break"):
+        return True
+    if k == "seq":
+        return bool(s["s"]) and always_exits(s["s"][-1])
+    return False
+
+
+def tail_facts(body):
+    """Conditions that hold whenever control reaches the end of a loop body (and hence at the start of the next
+    iteration): negations of top-level early-exit tests whose operands are not modified afterwards."""
+    facts = []
+    for i, nd in enumerate(body):
+        if nd[0] == "branch":
+            then_exits = any(x[0] == "ret" for x in nd[2]) and not nd[3]
+            if then_exits and not T.has_unknown(nd[1]):
+                facts.append(("not", nd[1]))
+    return facts
+
+
 def flatten(prog):
     for nd in prog:
         yield nd
@@ -1185,7 +1325,7 @@ def prog_atoms(prog, acc=None):
     if acc is None:
         acc = {}
     for nd in flatten(prog):
-        if nd[0] in ("guard", "oblige"):
+        if nd[0] in ("guard", "oblige", "assume"):
             T.atoms(nd[1], acc)
         elif nd[0] == "branch":
             T.atoms(nd[1], acc)
@@ -1232,6 +1372,11 @@ def _run(prog, env, tr, unc, general):
             tr.events.append(("oblige", nd[2], v, unc, general))
         elif k == "effect":
             tr.events.append(("effect", nd[1], nd[2], unc))
+        elif k == "assume":
+            if general:
+                v = T.truth(nd[1], env)
+                if v is False:
+                    return "ret"
         elif k == "unreachable":
             tr.events.append(("unreachable", nd[1], unc))
             if not unc:
@@ -1264,6 +1409,11 @@ def _run(prog, env, tr, unc, general):
                     unc = True
         elif k == "loop":
             c1 = T.truth(nd[3] if general else nd[1], env)
+            if general and c1 is not False:
+                for fct in nd[6].get("back_edge_facts", []):
+                    if T.truth(fct, env) is False:
+                        c1 = False
+                        break
             if c1 is not False:
                 r = _run(nd[4] if general else nd[2], env, tr, unc or c1 is None, general)
                 if r == "fired" and c1 is True and not unc:
